@@ -204,10 +204,45 @@ fn lowrank_exact(report: &mut Report, seed: u64, idx: u64) {
                 report.violation("C08:lowrank:no_update_with_enough_draws", format!("{n} draws in dimension {d}, transformation unchanged"), replay.clone());
                 return;
             }
-            // (measured on the unchanged tree: <= 3e-11 * cond for every offset)
-            let tol = 1e-8 * cond.max(1.0);
+            // conditioning of the window itself: n points in d dimensions span the space only barely when n is close
+            // to d; the estimate inherits the condition number of the centred point cloud
+            let cloud_cond = {
+                let m: Vec<f64> = (0..d).map(|i| pts.iter().map(|p| p[i]).sum::<f64>() / n as f64).collect();
+                let mut c = crate::util::mat_zeros(d, d);
+                for p in &pts {
+                    for i in 0..d {
+                        for j in 0..d {
+                            c[i][j] += (p[i] - m[i]) * (p[j] - m[j]) / (n as f64 - 1.0);
+                        }
+                    }
+                }
+                let power = |a: &Mat| -> f64 {
+                    let mut v = vec![1.0; d];
+                    let mut lam = 0.0;
+                    for _ in 0..200 {
+                        let w = mat_vec(a, &v);
+                        lam = norm(&w);
+                        if !(lam > 0.0) {
+                            break;
+                        }
+                        v = w.iter().map(|x| x / lam).collect();
+                    }
+                    lam
+                };
+                match crate::util::lu_inverse(&c) {
+                    Some((_, _, inv)) => power(&c) * power(&inv),
+                    None => f64::INFINITY,
+                }
+            };
+            // (measured on the unchanged tree: <= 3e-11 * cond for well spread windows, growing with the cloud's
+            // condition number)
+            let tol = 1e-8 * cond.max(1.0) * (1.0 + cloud_cond / 100.0);
             if std::env::var("VERIF_TIMING").is_ok() {
-                eprintln!("lowrank_exact d {d} n {n} cond {cond:e} offset {offset:e} worst {worst:e}");
+                eprintln!("lowrank_exact d {d} n {n} cond {cond:e} offset {offset:e} cloud {cloud_cond:e} worst {worst:e}");
+            }
+            if !cloud_cond.is_finite() || cloud_cond > 1e8 {
+                report.inconclusive("window too ill-conditioned for an exactness check");
+                return;
             }
             if !(worst <= tol) {
                 report.violation(
